@@ -352,6 +352,70 @@ def builtin_sweep(rep, rng, n):
             rep.property_failure(case, f"built-in {k}: pandas fails at {pd_fail}, polars at {pl_fail}", region=region)
 
 
+def aggregate_sweep(rep, rng, n):
+    """the whole-column built-in `unique_values_eq` on both backends and against Lean's `uniqueValuesEq` (documented set
+    equality on the non-null values): empty, all-null, exact and random columns with and without nulls"""
+    import pandas as pd
+    import polars as pl
+    import pandera as pa
+    import pandera.polars as pap
+    cases = []
+    for _ in range(n):
+        dtype = rng.choice(["int64", "float64", "str"])
+        pool = A.POOL[dtype][:5]
+        vs = rng.sample(pool, rng.randint(0, 3))
+        shape = rng.choice(["all-null", "exact", "exact", "exact+null", "exact+null", "random", "short+null"])
+        if shape == "all-null":
+            vals = [A.NULL] * rng.randint(1, 3)
+        elif shape.startswith("exact"):
+            vals = list(vs) + [rng.choice(vs) for _ in range(rng.randint(0, 3))] if vs else []
+            rng.shuffle(vals)
+        elif shape == "short+null":
+            vals = list(vs[:-1]) if vs else []      # as many distinct entries as `vs` once the null is counted
+        else:
+            vals = [rng.choice(pool) for _ in range(rng.randint(1, 5))]
+        if shape.endswith("+null") or (shape == "random" and rng.random() < 0.4):
+            vals.insert(rng.randrange(len(vals) + 1), A.NULL)
+        if dtype == "int64" and A.NULL in vals:
+            dtype = "float64"
+            vs = [A.vflt(4 * v["int"]["i"]) if isinstance(v, dict) and "int" in v else v for v in vs]
+            vals = [A.vflt(4 * v["int"]["i"]) if isinstance(v, dict) and "int" in v else v for v in vals]
+        cases.append({"mode": "aggregate", "dtype": dtype, "vs": vs, "vals": vals, "shape": shape})
+    ans = run_driver("C01", [{"mode": "aggregate", "vs": c["vs"], "vals": c["vals"]} for c in cases])
+    pl_dtype = {"int64": pl.Int64, "float64": pl.Float64, "str": pl.Utf8}
+    for c, a in zip(cases, ans):
+        if "error" in a:
+            rep.correspondence_break(c, "driver: " + a["error"])
+            continue
+        want = a["uniqueValuesEq"]
+        py_vs = [A.to_py(v) for v in c["vs"]]
+        py_vals = [None if v == A.NULL else A.to_py(v) for v in c["vals"]]
+        got = {}
+        with warnings.catch_warnings():
+            warnings.simplefilter("ignore")
+            try:
+                pa.DataFrameSchema({"a": pa.Column(None, pa.Check.unique_values_eq(py_vs), nullable=True)}).validate(
+                    pd.DataFrame({"a": A.series_of(c["vals"], c["dtype"], name="a")}))
+                got["pandas"] = True
+            except (pa.errors.SchemaError, pa.errors.SchemaErrors):
+                got["pandas"] = False
+            except Exception as e:  # noqa: BLE001
+                got["pandas"] = "crash:" + type(e).__name__
+            try:
+                pap.DataFrameSchema({"a": pap.Column(None, pap.Check.unique_values_eq(py_vs), nullable=True)}).validate(
+                    pl.DataFrame({"a": py_vals}, schema={"a": pl_dtype[c["dtype"]]}))
+                got["polars"] = True
+            except (pa.errors.SchemaError, pa.errors.SchemaErrors):
+                got["polars"] = False
+            except Exception as e:  # noqa: BLE001
+                got["polars"] = "crash:" + type(e).__name__
+        rep.evaluations += 1
+        rep.count(f"aggregate:{c['shape']}:{got['pandas']}/{got['polars']}")
+        if got["pandas"] != got["polars"] or got["polars"] != want:
+            rep.property_failure(c, f"unique_values_eq({py_vs}) on {py_vals}: pandas {got['pandas']}, polars {got['polars']}, "
+                                    f"the documented set equality on the non-null values is {want}")
+
+
 def anchoring_sweep(rep, rng, n):
     """str_matches with top-level alternations on strings whose *tail* matches one alternative: the inputs on which
     a prefix-anchored and a merely searched pattern differ"""
@@ -388,6 +452,8 @@ def run(tier, replay=None):
         if case.get("mode") == "builtin":
             builtin_sweep(rep, rng, 300)
             anchoring_sweep(rep, rng, 60)
+        elif case.get("mode") == "aggregate":
+            aggregate_sweep(rep, rng_for(PROP, "aggregate"), 200)
         else:
             run_cases(rep, [case])
         return rep.finish(rule="replay")
@@ -396,6 +462,7 @@ def run(tier, replay=None):
     try:
         builtin_sweep(rep, rng, 300 if tier == "quick" else 8000)
         anchoring_sweep(rep, rng, 60 if tier == "quick" else 1500)
+        aggregate_sweep(rep, rng_for(PROP, "aggregate"), 200 if tier == "quick" else 5000)
     except ImportError:
         pass
     return rep.finish(
